@@ -13,21 +13,35 @@ TOL = 1e-9
 ROT = {"r90": (0.0, 1.0), "r180": (-1.0, 0.0), "r270": (0.0, -1.0), "p345": (3 / 5, 4 / 5), "p345n": (3 / 5, -4 / 5), "p51213": (5 / 13, 12 / 13)}
 
 
-def _ramp(sh):
+ABOUTS = {"shear": [[1, 0.5], [0, 1]], "shear2": [[1, 0], [-0.25, 1]], "nus": [[1.5, 0], [0, 0.75]], "squash": [[0.5, 0.25], [0, 1]]}
+
+
+CH = (lambda r, c: r, lambda r, c: c, lambda r, c: 2 * r - c + 3.0, lambda r, c: r + c + 1.0)
+# (n_channels, dtype, content tolerance): the default ramp and the channel-count / dtype variants of the property's quantifier
+VARIANTS = {"": (3, np.float64, 1e-9), "f32x4": (4, np.float32, 2e-4), "f64x1": (1, np.float64, 1e-9), "u8x2": (2, np.uint8, 1.0 + 1e-9)}
+
+
+def _ramp(sh, nch=3):
     r, c = np.indices(sh).astype(float)
-    return np.stack([r, c, 2 * r - c + 3.0])
+    return np.stack([CH[k](r, c) for k in range(nch)])
 
 
-def make(cls, beh):
+def _content(p, nch):
+    """expected channel values at ORIGINAL coordinates p (n, 2) -> (nch, n)"""
+    return np.stack([CH[k](p[:, 0], p[:, 1]) * np.ones(len(p)) for k in range(nch)])
+
+
+def make(cls, beh, variant=""):
     from menpo.image import BooleanImage, Image, MaskedImage
     from menpo.shape import PointCloud
 
     sh = tuple(beh["shape0"])
     mask = np.array(beh["mask0"], dtype=bool)
+    nch, dt, _ = VARIANTS[variant]
     if cls == "Image":
-        img = Image(_ramp(sh))
+        img = Image(_ramp(sh, nch).astype(dt))
     elif cls == "MaskedImage":
-        img = MaskedImage(_ramp(sh), mask=mask)
+        img = MaskedImage(_ramp(sh, nch).astype(dt), mask=mask)
     else:
         img = BooleanImage(mask.copy())
     img.landmarks["lm"] = PointCloud(L.pts(beh["lms0"]))
@@ -53,6 +67,45 @@ def _call(img, op, args, exp):
     if op == "crop":
         mn, mx, c = args
         return img.crop(np.array([L.fl(x) for x in mn]), np.array([L.fl(x) for x in mx]), constrain_to_boundary=c, return_transform=True)
+    from menpo.image import BooleanImage, MaskedImage
+    from menpo.shape import PointCloud
+
+    if op == "crop_lms":
+        b, c = args
+        if b % 2:
+            return img.crop_to_pointcloud(img.landmarks["lm"], boundary=b, constrain_to_boundary=c, return_transform=True)
+        return img.crop_to_landmarks(group="lm", boundary=b, constrain_to_boundary=c, return_transform=True)
+    if op == "crop_lms_prop":
+        p, use_min, c = args
+        return img.crop_to_landmarks_proportion(L.fl(p), group="lm", minimum=use_min, constrain_to_boundary=c, return_transform=True)
+    if op == "crop_true_mask":
+        b, c, mn, mx = args
+        if isinstance(img, MaskedImage):
+            return img.crop_to_true_mask(boundary=b, constrain_to_boundary=c, return_transform=True)
+        if isinstance(img, BooleanImage):
+            lo, hi = img.bounds_true(boundary=b, constrain_to_bounds=False)
+            return img.crop(lo, hi, constrain_to_boundary=c, return_transform=True)
+        return img.crop(np.array([L.fl(x) for x in mn]), np.array([L.fl(x) for x in mx]), constrain_to_boundary=c, return_transform=True)
+    if op == "rescale_diag":
+        return img.rescale_to_diagonal(float(args[0]), round=args[1], return_transform=True)
+    if op == "rescale_pc":
+        k, m = args
+        target = PointCloud(img.landmarks["lm"].points * L.fl(k) + np.array([1.0, 2.0]))
+        return img.rescale_to_pointcloud(target, group="lm", round=m, return_transform=True)
+    if op == "rescale_lms_range":
+        return img.rescale_landmarks_to_diagonal_range(float(args[0]), group="lm", round=args[1], return_transform=True)
+    if op in ("pyramid", "gpyramid"):
+        levels = list((img.pyramid if op == "pyramid" else img.gaussian_pyramid)(n_levels=2, downscale=args[0]))
+        if len(levels) != 2:
+            raise AssertionError("pyramid yields %d levels, asked for 2" % len(levels))
+        l0 = levels[0]
+        if l0 is img or not np.array_equal(l0.pixels, img.pixels) or not np.array_equal(l0.landmarks["lm"].points, img.landmarks["lm"].points):
+            raise AssertionError("the first pyramid level is not an equal copy of the image")
+        return levels[1], None
+    if op == "about":
+        key, retain, m = args
+        return img.transform_about_centre(mt.Affine(np.block([[np.array(ABOUTS[key]), np.zeros((2, 1))], [np.zeros((1, 2)), np.ones((1, 1))]])),
+                                          retain_shape=retain, round=m, return_transform=True)
     S = L.mat(exp["S"])
     is_translation = np.allclose(S[:2, :2], np.eye(2))
     T = mt.Translation(S[:2, 2]) if is_translation else mt.Affine(S)
@@ -60,19 +113,26 @@ def _call(img, op, args, exp):
         return img.warp_to_shape(tuple(exp["shape"]), T, warp_landmarks=True, return_transform=True)
     if op == "warp_order0":
         return img.warp_to_shape(tuple(exp["shape"]), T, warp_landmarks=True, order=0, return_transform=True)
+    if op == "warp_mask":
+        return img.warp_to_mask(BooleanImage(np.array(exp["tmask"], dtype=bool)), T, warp_landmarks=True, return_transform=True)
     raise ValueError(op)
 
 
-def replay_one(cls, beh):
+def replay_one(cls, beh, variant=""):
     from menpo.image.base import ImageBoundaryError
 
-    img = make(cls, beh)
+    img = make(cls, beh, variant)
+    nch, dt, ctol = VARIANTS[variant]
     lms0 = L.pts(beh["lms0"])
     for k, ev in enumerate(beh["hist"]):
         op, args, exp = ev["op"], ev["args"], ev["exp"]
-        tag = "%s step %d %s%r" % (cls, k, op, args)
+        tag = "%s%s step %d %s%r" % (cls, (" (%s)" % variant) if variant else "", k, op, args)
         if cls == "BooleanImage" and op == "warp_order0":
             op = "warp"
+        if op == "gpyramid" and (cls == "BooleanImage" or variant == "u8x2"):
+            return None                                     # (smoothing a boolean image is not an operation of that class)
+        if op == "warp_sym":
+            return _warp_sym(cls, img, args[0], tag, ctol)
         keep_px, keep_lm = img.pixels.copy(), img.landmarks["lm"].points.copy()
         try:
             res, T = _call(img, op, args, exp)
@@ -81,19 +141,22 @@ def replay_one(cls, beh):
             err = "ImageBoundaryError"
         except ValueError:
             err = "ValueError"
+        except AssertionError as e:
+            return tag + ": " + str(e)
         if not np.array_equal(img.pixels, keep_px) or not np.array_equal(img.landmarks["lm"].points, keep_lm):
             return tag + ": the operation modified its input image"
         if err != exp.get("err", ""):
             return tag + ": outcome %r, expected %r" % (err or "ok", exp.get("err") or "ok")
         if err:
             continue
-        if type(res) is not type(img):
+        want_cls = type(img).__name__ if not (op == "warp_mask" and cls == "Image") else "MaskedImage"
+        if type(res).__name__ != want_cls:
             return tag + ": result class " + type(res).__name__
         if tuple(res.shape) != tuple(exp["shape"]):
             return tag + ": result shape %r, expected %r" % (tuple(res.shape), tuple(exp["shape"]))
         S = L.mat(exp["S"])
         probe = np.array([[0.0, 0.0], [1.0, 2.0], [res.shape[0] - 1.0, res.shape[1] - 1.0], [0.5, 1.25]])
-        if not L.close(T.apply(probe), L.apply_h(S, probe), 1e-9):
+        if T is not None and not L.close(T.apply(probe), L.apply_h(S, probe), 1e-9):
             return tag + ": the returned transform does not map result coordinates to source coordinates as the pixels were sampled"
         want_lm = L.pts(exp["lms"])
         got_lm = res.landmarks["lm"].points
@@ -112,23 +175,21 @@ def replay_one(cls, beh):
                         if a == -2:
                             continue
                         if a == -1:
-                            want = np.zeros(3)
+                            want = np.zeros(nch)
                         elif not sv[a, b]:
                             continue
                         else:
-                            p = L.apply_h(sA, np.array([[float(a), float(b)]]))[0]
-                            want = np.array([p[0], p[1], 2 * p[0] - p[1] + 3.0])
-                        if not L.close(res.pixels[:, i, j], want, 1e-9):
+                            want = _content(L.apply_h(sA, np.array([[float(a), float(b)]])), nch)[:, 0]
+                        if not L.close(res.pixels[:, i, j].astype(float), want, ctol):
                             return tag + ": nearest-neighbour warp put the wrong source pixel at %r (got %s, expected source index %r)" % (
                                 (i, j), res.pixels[:, i, j].tolist(), (int(a), int(b)))
             else:
                 idx = np.argwhere(valid)
                 if len(idx):
-                    p = L.apply_h(A, idx.astype(float))
-                    want = np.stack([p[:, 0], p[:, 1], 2 * p[:, 0] - p[:, 1] + 3.0])
-                    got = res.pixels[:, idx[:, 0], idx[:, 1]]
-                    if not L.close(got, want, 1e-9):
-                        w = np.argwhere(np.abs(got - want) > 1e-9)[0]
+                    want = _content(L.apply_h(A, idx.astype(float)), nch)
+                    got = res.pixels[:, idx[:, 0], idx[:, 1]].astype(float)
+                    if not L.close(got, want, ctol):
+                        w = np.argwhere(np.abs(got - want) > ctol)[0]
                         return tag + ": pixel content is not registered with the transform (pixel %r holds %s, expected %s)" % (
                             idx[w[1]].tolist(), got[:, w[1]].tolist(), want[:, w[1]].tolist())
                 # the property's own observation: sampling the result at a returned landmark gives the original landmark's content
@@ -137,10 +198,21 @@ def replay_one(cls, beh):
                     if (fl < 0).any() or (ce >= np.array(res.shape)).any():
                         continue
                     if all(valid[a, b] for a in (fl[0], ce[0]) for b in (fl[1], ce[1])):
-                        sval = res.sample(res.landmarks["lm"].points[q:q + 1], order=1)[:2, 0]
-                        if not L.close(sval, lm0, 1e-8):
+                        sval = res.sample(res.landmarks["lm"].points[q:q + 1], order=1)[:2, 0].astype(float)
+                        if not L.close(sval, lm0[:len(sval)], max(ctol * 10, 1e-8)):
                             return tag + ": sampling the result at landmark %d gives %s, the original landmark annotates %s" % (q, sval.tolist(), lm0.tolist())
-        if cls in ("MaskedImage", "BooleanImage"):
+        if op == "warp_mask":
+            # the result's mask is the template mask; a BooleanImage result holds the sampled values at the template's true pixels
+            tm = np.array(exp["tmask"], dtype=bool)
+            if cls != "BooleanImage":
+                if not np.array_equal(res.mask.mask, tm):
+                    return tag + ": the result's mask is not the template mask"
+            else:
+                wm = np.array(exp["bmask"], dtype=int)
+                j = wm >= 0
+                if res.mask.shape != wm.shape or not np.array_equal(res.mask[j], wm[j].astype(bool)):
+                    return tag + ": boolean warp_to_mask result differs from the template-restricted warped mask"
+        elif cls in ("MaskedImage", "BooleanImage"):
             wm = np.array(exp["mask"], dtype=int)
             gm = res.mask.mask if cls == "MaskedImage" else res.mask
             j = wm >= 0
@@ -151,9 +223,99 @@ def replay_one(cls, beh):
     return None
 
 
+def _bilinear(px, P):
+    """independent order-1 sampling of px (C, H, W) at points P (n, 2), all strictly inside"""
+    f = np.floor(P).astype(int)
+    f[:, 0] = np.minimum(f[:, 0], px.shape[1] - 2)
+    f[:, 1] = np.minimum(f[:, 1], px.shape[2] - 2)
+    a = P - f
+    out = np.zeros((px.shape[0], len(P)))
+    for di in (0, 1):
+        for dj in (0, 1):
+            w = (a[:, 0] if di else 1 - a[:, 0]) * (a[:, 1] if dj else 1 - a[:, 1])
+            out += w * px[:, f[:, 0] + di, f[:, 1] + dj]
+    return out
+
+
+def _warp_sym(cls, img, kind, tag, ctol=1e-9):
+    """smooth non-affine warp: the map is the real transform's own (uninterpreted in the specification); content, landmarks
+    and mask must all be carried by that one map"""
+    import menpo.transform as mt
+    from menpo.image import BooleanImage
+    from menpo.shape import PointCloud, TriMesh
+
+    H, W = img.shape
+    th, tw = H - 1, W              # template shape differs from the source shape
+    # template-space control points (corners + centre) and where they go in the source image (a mild, non-affine distortion)
+    src = np.array([[-1.0, -1.0], [-1.0, tw], [th, -1.0], [th, tw], [(th - 1) / 2.0, (tw - 1) / 2.0]])
+    tgt = np.array([[-0.75, -1.0], [-1.0, W + 0.25], [H + 0.5, -0.5], [H, W], [(H - 1) / 2.0 + 0.3, (W - 1) / 2.0 - 0.4]])
+    if kind == "pwa":
+        tl = np.array([[0, 1, 4], [1, 3, 4], [3, 2, 4], [2, 0, 4]])
+        T = mt.PiecewiseAffine(TriMesh(src, trilist=tl), TriMesh(tgt, trilist=tl))
+    else:
+        T = mt.ThinPlateSplines(PointCloud(src), PointCloud(tgt))
+    keep_px, keep_lm = img.pixels.copy(), img.landmarks["lm"].points.copy()
+    for via_mask in (False, True):
+        t2 = tag + (" (warp_to_mask)" if via_mask else " (warp_to_shape)")
+        if via_mask:
+            tm = np.ones((th, tw), dtype=bool)
+            tm[0, 0] = tm[th - 1, 1] = False
+            res = img.warp_to_mask(BooleanImage(tm), T, warp_landmarks=True)
+        else:
+            tm = np.ones((th, tw), dtype=bool)
+            res = img.warp_to_shape((th, tw), T, warp_landmarks=True)
+        if not np.array_equal(img.pixels, keep_px) or not np.array_equal(img.landmarks["lm"].points, keep_lm):
+            return t2 + ": the operation modified its input image"
+        if tuple(res.shape) != (th, tw):
+            return t2 + ": result shape %r" % (tuple(res.shape),)
+        idx = np.argwhere(tm).astype(float)
+        P = T.apply(idx)
+        inside = (P[:, 0] > 0.01) & (P[:, 0] < H - 1.01) & (P[:, 1] > 0.01) & (P[:, 1] < W - 1.01)
+        ii = idx[inside].astype(int)
+        if cls != "BooleanImage":
+            want = _bilinear(img.pixels.astype(float), P[inside])
+            got = res.pixels[:, ii[:, 0], ii[:, 1]]
+            if not L.close(got, want, max(ctol, 1e-8)):
+                w = np.argwhere(np.abs(got - want) > max(ctol, 1e-8))[0]
+                return t2 + ": pixel %r does not hold the source content at the transform's image of that pixel" % (ii[w[1]].tolist(),)
+        # landmarks: the transform maps the returned landmarks onto the original ones (result -> source, like the pixels)
+        # (a thin-plate spline has no closed inverse: its documented inverse is the spline fitted in the reverse direction, so
+        #  the back-map is only approximately the identity there; the landmarks must be exactly that reverse spline's image)
+        if kind == "pwa":
+            back = T.apply(res.landmarks["lm"].points)
+            if not L.close(back, keep_lm, 1e-6):
+                return t2 + ": landmarks are not carried by the same map as the pixels (max diff %.3g)" % L.maxdiff(back, keep_lm)
+        else:
+            want_lm = T.pseudoinverse().apply(keep_lm)
+            back = T.apply(res.landmarks["lm"].points)
+            if not L.close(res.landmarks["lm"].points, want_lm, 1e-9) or L.maxdiff(back, keep_lm) > 0.25:
+                return t2 + ": landmarks are not the reverse spline's image of the original landmarks"
+        # mask: nearest-neighbour through the same map (judged away from rounding ties)
+        if cls in ("MaskedImage", "BooleanImage") and not (via_mask and cls == "MaskedImage"):
+            srcm = img.mask.mask if cls == "MaskedImage" else img.mask
+            gm = res.mask.mask if cls == "MaskedImage" else res.mask
+            fr = np.abs(P - np.round(P) - 0.0)
+            safe = inside & (np.abs(np.abs(P - np.floor(P)) - 0.5) > 0.02).all(axis=1)
+            jj = idx[safe].astype(int)
+            near = np.round(P[safe]).astype(int)
+            if not np.array_equal(gm[jj[:, 0], jj[:, 1]], srcm[near[:, 0], near[:, 1]]):
+                return t2 + ": the mask is not carried by the same map as the pixels"
+        if via_mask and cls == "MaskedImage" and not np.array_equal(res.mask.mask, tm):
+            return t2 + ": the result's mask is not the template mask"
+    return None
+
+
 def replay(beh):
+    import zlib
+
     for cls in ("Image", "MaskedImage", "BooleanImage"):
         bad = replay_one(cls, beh)
         if bad:
             return {"class": cls, "what": bad}
+    # one channel-count / dtype variant per behaviour (chosen by a stable hash of its operations)
+    h = zlib.crc32(repr([(e["op"], e["args"]) for e in beh["hist"]]).encode())
+    cls, variant = (("Image", "f32x4"), ("MaskedImage", "f64x1"), ("Image", "u8x2"), ("MaskedImage", "u8x2"))[h % 4]
+    bad = replay_one(cls, beh, variant)
+    if bad:
+        return {"class": cls, "variant": variant, "what": bad}
     return None
